@@ -150,3 +150,70 @@ Proof.
   - destruct H as (Hl & Hr). rewrite !no_at_app, (IHl Hl), (IHr Hr). destruct o; reflexivity.
   - rewrite !no_at_app, (IHx H). destruct u; reflexivity.
 Qed.
+
+(** ---------------- operands: what an argument is turned into reads back as the argument ---------------- *)
+Require Import AvraV.Model.Lines.
+Local Open Scope nat_scope.
+
+Lemma neutral_hd rest : neutral_rest rest -> hd_ok (fun c => negb (is_idch c)) rest = true.
+Proof. intros (H & _). exact H. Qed.
+Lemma neutral_not_plus rest : neutral_rest rest -> lit_tok "+" rest = None.
+Proof.
+  intros (_ & H). destruct rest as [|c r]; [reflexivity|]. unfold lit_tok. cbn [lit list_ascii_of_string strip].
+  destruct (Ascii.eqb_spec "+"%char c) as [<-|]; [|reflexivity]. exfalso. cbn in H. destruct H as (_ & H). discriminate.
+Qed.
+
+Definition reg16_char (r : Ast.reg16) : ascii := match r with RX => "x"%char | RY => "y"%char | RZ => "z"%char end.
+Lemma show_reg16_char r : show_reg16 r = [reg16_char r].
+Proof. destruct r; reflexivity. Qed.
+Lemma reg16_char_parse r rest : Lines.reg16 (reg16_char r :: rest) = Some (r, rest).
+Proof. destruct r; reflexivity. Qed.
+
+(** index forms *)
+Theorem index_none_roundtrip r rest : neutral_rest rest -> instruction_op (display_iop (OIndex (INone r)) ++ rest) = Some (OIndex (INone r), rest).
+Proof.
+  intros Hn. cbn [display_iop display_index]. rewrite show_reg16_char. cbn [app]. unfold instruction_op, index_ops.
+  assert (H1 : lit_tok "-" (reg16_char r :: rest) = None) by (destruct r; reflexivity). rewrite H1. cbn [or_opt].
+  rewrite reg16_char_parse, (neutral_not_plus rest Hn). pose proof (neutral_hd rest Hn) as Hh.
+  destruct rest as [|c r']; [reflexivity|]. cbn in Hh. apply negb_true_iff in Hh. rewrite Hh. reflexivity.
+Qed.
+Theorem index_predec_roundtrip r rest : instruction_op (display_iop (OIndex (IPreDec r)) ++ rest) = Some (OIndex (IPreDec r), rest).
+Proof.
+  cbn [display_iop display_index]. rewrite show_reg16_char. unfold instruction_op, index_ops.
+  change (lit_tok "-" ((lit "-" ++ [reg16_char r]) ++ rest)) with (Some (reg16_char r :: rest)).
+  cbv beta iota. rewrite reg16_char_parse. reflexivity.
+Qed.
+Theorem index_postinc_roundtrip r rest : expr_rule rest = None -> instruction_op (display_iop (OIndex (IPostInc r)) ++ rest) = Some (OIndex (IPostInc r), rest).
+Proof.
+  intros He. cbn [display_iop display_index]. rewrite show_reg16_char. unfold lit. cbn [list_ascii_of_string app].
+  unfold instruction_op, index_ops.
+  assert (H1 : lit_tok "-" (reg16_char r :: "+"%char :: rest) = None) by (destruct r; reflexivity). rewrite H1. cbn [or_opt].
+  rewrite reg16_char_parse.
+  change (lit_tok "+" ("+"%char :: rest)) with (Some rest). cbv beta iota. rewrite He. reflexivity.
+Qed.
+Theorem index_postinc_expr_roundtrip r e rest : wfe e -> neutral_rest rest ->
+  instruction_op (display_iop (OIndex (IPostIncE r (conv e))) ++ rest) = Some (OIndex (IPostIncE r (conv e)), rest).
+Proof.
+  intros Hw Hn. cbn [display_iop display_index]. rewrite show_reg16_char. unfold lit. cbn [list_ascii_of_string app].
+  unfold instruction_op, index_ops.
+  assert (H1 : lit_tok "-" (reg16_char r :: "+"%char :: display_expr (conv e) ++ rest) = None) by (destruct r; reflexivity). rewrite H1. cbn [or_opt].
+  rewrite reg16_char_parse. change (lit_tok "+" ("+"%char :: display_expr (conv e) ++ rest)) with (Some (display_expr (conv e) ++ rest)%list).
+  cbv beta iota. rewrite (display_roundtrip_ctx e rest Hw Hn). reflexivity.
+Qed.
+
+(** expressions that do not look like a register or an index form (compound ones and numbers never do) *)
+Theorem expr_operand_roundtrip e rest : wfe e -> neutral_rest rest ->
+  index_ops (display_expr (conv e) ++ rest) = None -> Lines.reg8 (display_expr (conv e) ++ rest) = None ->
+  instruction_op (display_iop (OE (conv e)) ++ rest) = Some (OE (conv e), rest).
+Proof.
+  intros Hw Hn Hi Hr. cbn [display_iop]. unfold instruction_op. rewrite Hi, Hr, (display_roundtrip_ctx e rest Hw Hn). reflexivity.
+Qed.
+Lemma paren_not_register s : index_ops ("("%char :: s) = None /\ Lines.reg8 ("("%char :: s) = None.
+Proof. split; [reflexivity|]. destruct s; reflexivity. Qed.
+Theorem compound_operand_roundtrip e rest : wfe e -> neutral_rest rest ->
+  match e with EB _ _ _ | EU _ _ => instruction_op (display_iop (OE (conv e)) ++ rest) = Some (OE (conv e), rest) | _ => True end.
+Proof.
+  intros Hw Hn. destruct e as [n|k|n a|o l r|u x]; try exact I; apply expr_operand_roundtrip; try assumption;
+    cbn [conv display_expr app lit list_ascii_of_string]; apply paren_not_register.
+Qed.
+
